@@ -27,6 +27,10 @@ from typing import Any, Callable, Dict, Iterable, List, Optional, Tuple
 ROOT = os.path.dirname(os.path.dirname(os.path.abspath(__file__)))
 EVIDENCE_DIR = os.path.join(ROOT, "evidence")
 REPLAY_DIR = os.path.join(ROOT, "replays")
+if os.environ.get("VERIF_SELFTEST") == "1":
+    # runs against deliberately broken scratch copies must not overwrite the evidence of the real tree
+    EVIDENCE_DIR = os.path.join(ROOT, ".work", "selftest-evidence")
+    REPLAY_DIR = os.path.join(ROOT, ".work", "selftest-replays")
 CORPUS_DIR = os.path.join(ROOT, "corpus")
 KNOWN_FINDINGS = os.path.join(ROOT, "known_findings.json")
 MAX_SHARDS = 16
